@@ -378,6 +378,9 @@ class CodeGenerator(NodeVisitor):
         # Tracks toplevel assignments
         self._assign_stack: list[set[str]] = []
 
+        # checked namespace objects of the assignment being compiled
+        self._nsref_checked: dict[str, str] = {}
+
         # Tracks parameter definition blocks
         self._param_def_block: list[set[str]] = []
 
@@ -1657,10 +1660,20 @@ class CodeGenerator(NodeVisitor):
             )
             self.outdent()
 
+            if any(
+                n.name == nsref.name and n.ctx == "store"
+                for n in node.target.find_all(nodes.Name)
+            ):
+                # The same tuple rebinds the name, ``ns, ns.a = c, d``. Keep
+                # the checked object so the attribute isn't set on ``c``.
+                checked = self._nsref_checked[nsref.name] = self.temporary_identifier()
+                self.writeline(f"{checked} = {ref}")
+
         self.newline(node)
         self.visit(node.target, frame)
         self.write(" = ")
         self.visit(node.node, frame)
+        self._nsref_checked.clear()
         self.pop_assign_tracking(frame)
 
     def visit_AssignBlock(self, node: nodes.AssignBlock, frame: Frame) -> None:
@@ -1731,7 +1744,7 @@ class CodeGenerator(NodeVisitor):
         # visit_Assign emits code to validate that each ref is to a Namespace
         # object only. That can't be emitted here as the ref could be in the
         # middle of a tuple assignment.
-        ref = frame.symbols.ref(node.name)
+        ref = self._nsref_checked.get(node.name) or frame.symbols.ref(node.name)
         self.writeline(f"{ref}[{node.attr!r}]")
 
     def visit_Const(self, node: nodes.Const, frame: Frame) -> None:
